@@ -244,11 +244,19 @@ func (a *AnySchema) checkAndConvert(data any) (any, error) {
 	case reflect.Uint32:
 		fallthrough
 	case reflect.Uint64:
-		return intInputMapper(data, nil)
+		result, err := intInputMapper(data, nil)
+		if err != nil {
+			return nil, &ConstraintError{Message: err.Error()}
+		}
+		return result, nil
 	case reflect.Int64:
 		return t.Int(), nil
 	case reflect.Float32:
-		return floatInputMapper(data, nil)
+		result, err := floatInputMapper(data, nil)
+		if err != nil {
+			return nil, &ConstraintError{Message: err.Error()}
+		}
+		return result, nil
 	case reflect.Float64:
 		return asFloat(data)
 	case reflect.String:
